@@ -209,6 +209,73 @@ fn sweep_checks(ctx: &Ctx) {
     });
 }
 
+// ---------------------------------------------------------------- fault points: the conditional panics at call k
+
+#[derive(Clone)]
+struct PanicAt {
+    inner: Rec<f64>,
+    calls: Arc<AtomicU64>,
+    at: u64,
+}
+impl Conditional<f64> for PanicAt {
+    fn sample(&mut self, index: usize, given: &[f64]) -> f64 {
+        let n = self.calls.fetch_add(1, Ordering::SeqCst);
+        if n == self.at {
+            panic!("injected conditional fault at call {n}");
+        }
+        self.inner.sample(index, given)
+    }
+}
+
+/// For every dimension d <= 8 (16) and every call index k < 2d: the conditional panics at its k-th call, the
+/// caller recovers (catch_unwind). The chain must then hold exactly the partially refreshed state of the list
+/// model (coordinates refreshed so far keep their new values, nothing else changed), and a further sweep must be regular.
+fn fault_points(ctx: &Ctx) {
+    let maxd = ctx.tier.pick(8usize, 16);
+    for d in 1..=maxd {
+        for k in 0..(2 * d) as u64 {
+            let case = json!({"kind": "fault", "d": d, "panic_at_call": k});
+            let rec = new_rec::<f64>(mk_f64);
+            let log = rec.log.clone();
+            let init: Vec<f64> = (0..d).map(|j| -(j as f64) - 1.0).collect();
+            let cond = PanicAt { inner: rec, calls: Arc::new(AtomicU64::new(0)), at: k };
+            let mut chain = GibbsMarkovChain::new(cond, &init);
+            ctx.evals(1);
+            ctx.transitions(3);
+            ctx.state(hash_str(&case.to_string()));
+            let mut faults = 0;
+            for _ in 0..3 {
+                let r = std::panic::catch_unwind(std::panic::AssertUnwindSafe(|| {
+                    chain.step();
+                }));
+                if r.is_err() {
+                    faults += 1;
+                }
+            }
+            // list model: replay the log (every completed call wrote its value to its coordinate)
+            let lg = log.lock().unwrap().get(&0).cloned().unwrap_or_default();
+            let mut model = init.clone();
+            let mut ok = true;
+            for (n, (idx, given, val)) in lg.iter().enumerate() {
+                if bv(given) != bv(&model) {
+                    ctx.violation(Violation::new("C05:state-after-fault", format!("d={d}, conditional panicked at call {k}: call {n} (coordinate {idx}) was given a state that differs from the freshest state (lengths {} vs {d})", given.len()), case.clone()));
+                    ok = false;
+                    break;
+                }
+                model[*idx] = *val;
+            }
+            if ok && bv(chain.current_state()) != bv(&model) {
+                ctx.violation(Violation::new("C05:state-after-fault", format!("d={d}, conditional panicked at call {k}: the chain holds {:?} but the coordinates written so far give {:?}", chain.current_state(), model), case.clone()));
+            } else if ok {
+                ctx.outcome("fault-points-ok", 1);
+            }
+            if faults != 1 {
+                ctx.machinery_error(format!("fault injection: expected exactly one panic, saw {faults}"));
+            }
+        }
+    }
+}
+
 // ---------------------------------------------------------------- explicit-state kernel
 
 /// Conditional of a finite joint table; the value returned is dictated by a script (one choice per call),
@@ -337,8 +404,9 @@ fn kernel_checks(ctx: &Ctx) {
 }
 
 pub fn run(ctx: &Ctx) {
-    ctx.rule("(a) recording conditional (logs index + a copy of `given`, returns a fresh unique value) for EVERY dimension 1..64, 1..3 steps, initial states {zeros, ramp, NaN-containing, -0/inf} (f64), f32, i32, and 2..4 chains through GibbsSampler::run, against a list model; (b) explicit-state: for finite joints (all 255 weight tables over {0..3} on {0,1}^2; structured tables incl. zeros and a diagonal-heavy one on larger spaces) the exact kernel P is built by enumerating EVERY outcome sequence of one real sweep from every positive-probability state, then pi P = pi to 1e-12. states = start states x tables (+ sweep configurations); transitions = sweeps executed");
+    ctx.rule("(a) recording conditional (logs index + a copy of `given`, returns a fresh unique value) for EVERY dimension 1..64, 1..3 steps, initial states {zeros, ramp, NaN-containing, -0/inf} (f64), f32, i32, and 2..4 chains through GibbsSampler::run, against a list model; (a') fault points: the conditional panics at its k-th call for every k < 2d, d <= 8 (16), the caller recovers and the chain must hold exactly the partially refreshed state; (b) explicit-state: for finite joints (all 255 weight tables over {0..3} on {0,1}^2; structured tables incl. zeros and a diagonal-heavy one on larger spaces) the exact kernel P is built by enumerating EVERY outcome sequence of one real sweep from every positive-probability state, then pi P = pi to 1e-12. states = start states x tables (+ sweep configurations); transitions = sweeps executed");
     sweep_checks(ctx);
+    fault_points(ctx);
     kernel_checks(ctx);
     ctx.sample(json!({"sweep": {"d": 3, "init": [0.0, 0.0, 0.0], "expected_calls": [[0, [0.0, 0.0, 0.0]], [1, ["v0", 0.0, 0.0]], [2, ["v0", "v1", 0.0]]]}}));
     ctx.sample(json!({"kernel": {"space": "{0,1}^2", "weights": [1, 2, 3, 0], "outcome_sequences_per_start": 4}}));
